@@ -54,7 +54,9 @@ class Parser(ABC):
                 self.token_list.append(
                     (line_number, line, self._pattern_line.parseString(line))
                 )
-            except pp.ParseException:
+            except (pp.ParseException, KeyError):
+                # KeyError: the caseless mnemonic patterns match characters such as 'ſ' or 'ı' through unicode case folding,
+                # but pyparsing cannot map the matched text back to a mnemonic
                 raise ParserSyntaxException(line_number=line_number, line=line)
 
     def _segment(self) -> None:
